@@ -27,13 +27,14 @@ class UnitF(Unit):
         G = Gen(repo)
         out.spec('#![feature(allocator_api)]\n#![feature(pattern)]\n#![allow(unused_imports)]\n' + HEAD)
         self._trusted = prelude(out, ['ax-rc', 'ax-string-eq', 'ax-str-ext', 'ax-display-ref', 'ax-hash-string', 'ax-split-once', 'stdspec-contains',
-                                      'stdspec-as-deref', 'stdspec-option-combinators', 'stdspec-split-once', 'stdspec-rsplit-once', 'ax-rsplit-once'])
+                                      'stdspec-as-deref', 'stdspec-option-combinators', 'stdspec-split-once', 'stdspec-rsplit-once', 'ax-rsplit-once', 'ax-as-deref-rc',
+                                      'stdspec-slice-iter', 'ax-slice-iter', 'stdspec-string-eq-str'])
         self._trusted += sections(out, 'dep_io.rs', ['io-write-ghost'])
-        self._trusted += sections(out, 'dep_misc.rs', ['inflector', 'url', 'roxmltree-error'])
+        self._trusted += sections(out, 'dep_misc.rs', ['inflector', 'url', 'roxmltree-node'])
         out.spec(MOD_HEAD.replace('broadcast use crate::ax::display_ref;',
                                   'broadcast use {crate::ax::display_ref, crate::ax::rc_clone_eq, crate::ax::string_peq, crate::ax::str_ext, '
                                   'crate::ax::string_key_model, crate::ax::string_of_view, crate::ax::view_string_of, crate::ax::borrowed_string_key, crate::ax::borrowed_string_value, '
-                                  'crate::ax::split_once_char, crate::ax::rsplit_once_char, vstd::std_specs::hash::group_hash_axioms};\n'
+                                  'crate::ax::split_once_char, crate::ax::rsplit_once_char, crate::ax::as_deref_rc, crate::ax::iter_seq_is_remaining, vstd::std_specs::hash::group_hash_axioms};\n'
                                   '    use crate::stdspec::{peq, split_once_spec};\n    use crate::ax::string_of;\n'
                                   '    use crate::inflector::cases::pascalcase::pascal;'))
         w = UnitW()
@@ -41,9 +42,46 @@ class UnitF(Unit):
         w.emit_types(out, G)
         self._trusted += w._trusted
         out.spec(spec_section('F_spec.rs', 'qname-spec'))
+        out.spec('    use crate::roxmltree::Node;')
+        out.spec(spec_section('F_spec.rs', 'lookup-spec'))
+        self._trusted += sections(out, 'X_glue.rs', ['lookup-callees'])
+        # RustType::xml_name / RustNode::xml_name (structures/mod.rs, node.rs)
+        rel = 'model/structures/mod.rs'
+        im = [c for c in G.items(rel) if c.kind == 'impl' and c.name.strip() == 'RustType']
+        if len(im) != 1:
+            raise AnchorLost('impl RustType not found')
+        im = im[0]
+        open_container(out, im, SRC + rel)
+        splice_fn(out, child(im, 'fn', 'xml_name'), SRC + rel, 'structures::RustType::xml_name', probe=probe,
+                  ensures=[('name-of-the-component', 'match res { Some(r) => type_name(*self) == Some(r@), None => type_name(*self) is None }')],
+                  origin={'name-of-the-component': 'helper'})
+        close_container(out, im, SRC + rel)
+        rel = 'model/node.rs'
+        im = [c for c in G.items(rel) if c.kind == 'impl' and c.name.strip() == 'RustNode']
+        if len(im) != 1:
+            raise AnchorLost('impl RustNode not found')
+        im = im[0]
+        open_container(out, im, SRC + rel)
+        splice_fn(out, child(im, 'fn', 'xml_name'), SRC + rel, 'node::RustNode::xml_name', probe=probe,
+                  ensures=[('name-of-the-component', 'match res { Some(r) => type_name(self.rust_type) == Some(r@), None => type_name(self.rust_type) is None }')],
+                  origin={'name-of-the-component': 'helper'})
+        close_container(out, im, SRC + rel)
         rel = 'model/doc.rs'
         im = G.top(rel, 'impl', 'RustDocument')
         open_container(out, im, SRC + rel)
+        HIT = ('table_has(*old(self), xml_name@, namespace, {t}) ==> res is Some && denotes(*(res->0), xml_name@, namespace, {t})')
+        splice_fn(out, child(im, 'fn', 'find_component_by_xml_name'), SRC + rel, 'doc::RustDocument::find_component_by_xml_name', probe=probe,
+                  ensures=[('read-component-denotes-the-reference', HIT.format(t='types_only'))],
+                  origin={'read-component-denotes-the-reference': 'property'},
+                  closures=[{'at': '|n| n == xml_name', 'ensures': 'b == (n@ == xml_name@)'},
+                            {'at': '|name| name == xml_name', 'ensures': 'true'}],
+                  inserts=[{'pos': 'body_start', 'text': '        proof { assert(self.nodes@.as_ref().unref() =~= self.nodes@); }'},
+                           {'at': '.find(|node|', 'where': 'after', 'inline': True,
+                            'text': ' -> (b: bool) ensures b == denotes(***node, xml_name@, namespace, types_only)'}])
+        splice_fn(out, child(im, 'fn', 'find_node_by_xml_name'), SRC + rel, 'doc::RustDocument::find_node_by_xml_name', probe=probe,
+                  ensures=[('read-component-denotes-the-reference', HIT.format(t='false'))], origin={'read-component-denotes-the-reference': 'property'})
+        splice_fn(out, child(im, 'fn', 'find_type_by_xml_name'), SRC + rel, 'doc::RustDocument::find_type_by_xml_name', probe=probe,
+                  ensures=[('base-lookup-finds-a-type', HIT.format(t='true'))], origin={'base-lookup-finds-a-type': 'property'})
         splice_fn(out, child(im, 'fn', 'find_namespace_by_abbreviation'), SRC + rel, 'doc::RustDocument::find_namespace_by_abbreviation', probe=probe,
                   ensures=[('prefix-lookup', 'match res { Some(r) => bound_ns(*self, abbreviation@) == Some(*r), None => bound_ns(*self, abbreviation@) is None }')],
                   origin={'prefix-lookup': 'helper'})
